@@ -60,7 +60,7 @@ def term_text(sym: str) -> str:
 
 
 def A(name: str, expr: str) -> str:
-    return f'        assert!({expr}, "{name}");\n'
+    return f'        assert!(/*[{name}*/ {expr} /*]*/, "{name}");\n'
 
 
 # --------------------------------------------------------------------------- operands
@@ -198,7 +198,7 @@ def prelude(klass: str, mem_ops: bool, extra_decl: str = "", stack_addr: str = N
             b += f"        let s_addr: usize = {stack_addr};\n"
             b += f"        let in_s0: u8 = vm.mem[s_addr];\n        let in_s1: u8 = vm.mem[{S}::next(s_addr)];\n"
         b += f"        let in_p: usize = kani::any();\n        kani::assume(in_p < {MBx});\n        let in_p0: u8 = vm.mem[in_p];\n"
-    b += f"        let old = {V}::regs(&vm);\n"
+    b += f"        let old = {V}::regs(&vm);\n        /*@inputs-done*/\n"
     return b
 
 
@@ -208,7 +208,7 @@ def call(action: int, args: List[str], ret: str = "ret") -> str:
 
 
 def epilogue(klass: str, writes: List[Tuple[str, str]], name: str) -> Tuple[str, List[str]]:
-    b = f"        {V}::check_regs(&vm, &exp);\n"
+    b = f"        {V}::check_regs(&vm, &exp, /*[regmask*/ 0 /*]*/);\n"
     clauses = ["reg." + r for r in INPUT_REGS]
     if klass == "M":
         if writes:
@@ -256,7 +256,11 @@ class Gen:
     def types(self, p: Production) -> List[str]:
         return self.actions[p.action].sym_types
 
-    def add(self, p: Production, props, klass, body, clauses, **kw):
+    def add(self, p: Production, props, klass, body, clauses, ops=None, lab=None, **kw):
+        if ops is not None:
+            kw.setdefault("replay", {})["ops"] = [[o.kind, o.var, o.ty] for o in ops]
+            kw["replay"]["lab"] = list(lab)
+            kw["replay"]["syms"] = p.syms
         h = H("h_" + slug(p.sig), p.sig, props, klass, body + f'        kani::cover!(true, "reachable");\n', clauses, **kw)
         h.group = p.nt
         self.out.append(h)
@@ -288,7 +292,7 @@ class Gen:
         e, cl = epilogue(klass, writes, "")
         self.add(p, props, klass, b + e,
                  ["op.called_once", "op.dest_operand", "op.src_operand", "op.sees_unmodified_registers"] + cl,
-                 replay={"kind": "l3", "shape": "binary", "byte": byte})
+                 ops=[dst, src], lab=lab, replay={"kind": "l3", "shape": "binary", "byte": byte, "nt": p.nt})
 
     # ---- unary arithmetic ---------------------------------------------------------------
     def unary(self, p: Production, props):
@@ -326,7 +330,7 @@ class Gen:
         e, cl = epilogue(klass, writes, "")
         self.add(p, props, klass, b + e,
                  ["op.called_once", "op.operand", "op.sees_unmodified_registers", "divide_error.becomes_INT0", "ok.becomes_NEXT"] + cl,
-                 replay={"kind": "l3", "shape": "unary", "byte": byte})
+                 ops=[opnd], lab=lab, replay={"kind": "l3", "shape": "unary", "byte": byte})
 
     # ---- not ----------------------------------------------------------------------------------
     def not_(self, p: Production, props):
@@ -342,7 +346,7 @@ class Gen:
         writes = []
         b += opnd.write(f"!({opnd.old()})", writes)
         e, cl = epilogue(klass, writes, "")
-        self.add(p, props, klass, b + e, cl, replay={"kind": "l3", "shape": "not"})
+        self.add(p, props, klass, b + e, cl, ops=[opnd], lab=lab, replay={"kind": "l3", "shape": "not"})
 
     # ---- shift / rotate --------------------------------------------------------------------
     def shift(self, p: Production, props):
@@ -369,7 +373,7 @@ class Gen:
         e, cl = epilogue(klass, writes, "")
         self.add(p, props, klass, b + e,
                  ["op.called_once", "op.dest_operand", "op.count_operand", "op.sees_unmodified_registers"] + cl,
-                 replay={"kind": "l3", "shape": "shift", "byte": byte})
+                 ops=[dst, cnt], lab=lab, replay={"kind": "l3", "shape": "shift", "byte": byte})
 
     # ---- mov ----------------------------------------------------------------------------------
     def mov(self, p: Production, props):
@@ -385,7 +389,7 @@ class Gen:
         writes = []
         b += dst.write(src.old(), writes)
         e, cl = epilogue(klass, writes, "")
-        self.add(p, props, klass, b + e, cl, replay={"kind": "l3", "shape": "mov"})
+        self.add(p, props, klass, b + e, cl, ops=[dst, src], lab=lab, replay={"kind": "l3", "shape": "mov"})
 
     def xchg(self, p: Production, props):
         types = self.types(p)
@@ -401,7 +405,7 @@ class Gen:
         b += a.write("vc", writes)
         b += c.write("va", writes)
         e, cl = epilogue(klass, writes, "")
-        self.add(p, props, klass, b + e, cl, replay={"kind": "l3", "shape": "xchg"})
+        self.add(p, props, klass, b + e, cl, ops=[a, c], lab=lab, replay={"kind": "l3", "shape": "xchg"})
 
     # ---- push / pop ---------------------------------------------------------------------------
     def push(self, p: Production, props):
@@ -421,7 +425,7 @@ class Gen:
         b += f"        let base = {S}::phys(old.ss, exp.sp);\n"
         writes = [("base", "(v as u8)"), (f"{S}::next(base)", "((v >> 8) as u8)")]
         e, cl = epilogue("M", writes, "")
-        self.add(p, props, "M", b + e, cl, replay={"kind": "l3", "shape": "push"})
+        self.add(p, props, "M", b + e, cl, ops=[src], lab=lab, replay={"kind": "l3", "shape": "push"})
 
     def pop(self, p: Production, props):
         types = self.types(p)
@@ -437,7 +441,7 @@ class Gen:
         # 8086: SP is incremented first, then the destination is written (POP SP leaves the popped value in SP)
         b += dst.write("v", writes)
         e, cl = epilogue("M", writes, "")
-        self.add(p, props, "M", b + e, cl, replay={"kind": "l3", "shape": "pop"})
+        self.add(p, props, "M", b + e, cl, ops=[dst], lab=lab, replay={"kind": "l3", "shape": "pop"})
 
     def singleton_dt(self, p: Production, props):
         mn = term_text(p.syms[0])
@@ -671,7 +675,23 @@ class Gen:
                  stubs=stubs, replay={"kind": "table", "mn": mn})
 
     # ---- addressing: every derivation of memory_addr, and LEA on top of it ------------------
-    ADDR_NTS = {"base_index_reg_addr", "base_index_reg_val", "base_reg_addr", "base_reg_val", "index_reg_val"}
+    ADDR_NTS = set()
+    ADDR_REGS = {"bx", "bp", "si", "di"}
+
+    def find_addr_nts(self):
+        """addressing nonterminals = those whose every alternative is one of "bx"/"bp"/"si"/"di" or another such nonterminal"""
+        nts = set()
+        changed = True
+        while changed:
+            changed = False
+            for nt, ps in self.by_nt.items():
+                if nt in nts:
+                    continue
+                if all(len(p.syms) == 1 and ((is_term(p.syms[0]) and term_text(p.syms[0]) in self.ADDR_REGS) or p.syms[0] in nts)
+                       for p in ps):
+                    nts.add(nt)
+                    changed = True
+        return nts
 
     def derive(self, nt: str, ctr: List[int]):
         """all derivations of an addressing nonterminal: (code, var, regs_used, prods_used)"""
@@ -764,6 +784,7 @@ class Gen:
 
     # ---- driver ------------------------------------------------------------------------------------
     def run(self):
+        self.ADDR_NTS = self.find_addr_nts()
         lea_prods = self.by_nt.get("lea", [])
         for p in self.prods:
             nt = p.nt
